@@ -365,6 +365,29 @@ class Env:
                 todo.append(t.body())
         return out
 
+    def class_assigns_attr(self, cls, name):
+        """does any class in the MRO assign `self.<name>` somewhere in its source?"""
+        import inspect
+        import re
+
+        memo = self.__dict__.setdefault("_assigns_memo", {})
+        key = (cls, name)
+        if key not in memo:
+            found = False
+            pat = re.compile(r"\bself\.%s\b\s*(:[^=\n]+)?=[^=]" % re.escape(name))
+            for c in cls.__mro__:
+                if c is object:
+                    continue
+                try:
+                    src = inspect.getsource(c)
+                except (OSError, TypeError):
+                    continue
+                if pat.search(src):
+                    found = True
+                    break
+            memo[key] = found
+        return memo[key]
+
     def is_spec_module(self, fn):
         mod = getattr(fn, "__module__", "") or ""
         return mod.startswith("specs") or mod.startswith("contracts") or mod.startswith("lemmas") or mod == "pyvc.api"
